@@ -30,9 +30,21 @@ func scanRescPair(c *core.Ctx) []ob {
 			if !ok || fd.Body == nil || fd.Recv == nil || !strings.Contains(fd.Name.Name, "ByLastModulusMany") {
 				continue
 			}
-			n++
 			fkey := core.FuncKey(pk, fd)
 			key := "RESCPAIR:" + fkey
+			// a wrapper that hands everything to a helper of the family is decided with the helper
+			if len(fd.Body.List) == 1 {
+				if es, ok := fd.Body.List[0].(*ast.ExprStmt); ok {
+					if call, ok := es.X.(*ast.CallExpr); ok {
+						if h := calleeFunc(info, call); h != nil && h.Pkg() == pk.Types && strings.Contains(strings.ToLower(h.Name()), "bylastmodulusmany") && h.Name() != fd.Name.Name {
+							out = append(out, okOb("RESCPAIR", key, c.Rel(fd.Pos()), "delegates to "+h.Name(), false))
+							n++
+							continue
+						}
+					}
+				}
+			}
+			n++
 			var problems []string
 			isDivOn := func(st ast.Stmt) (types.Object, bool) {
 				// direct call statement or if/else whose arms are single division calls on the same receiver
@@ -41,6 +53,22 @@ func scanRescPair(c *core.Ctx) []ob {
 					switch x := s.(type) {
 					case *ast.ExprStmt:
 						if call, ok := x.X.(*ast.CallExpr); ok {
+							// the single step handed in as a function value: `div(*rCpy, in, out)`
+							if id, ok := unparen(call.Fun).(*ast.Ident); ok && len(call.Args) >= 1 {
+								if v, ok := info.Uses[id].(*types.Var); ok {
+									if _, isFn := v.Type().Underlying().(*types.Signature); isFn {
+										a := unparen(call.Args[0])
+										if st, ok := a.(*ast.StarExpr); ok {
+											a = unparen(st.X)
+										}
+										if o := identObj(info, a); o != nil {
+											if n := namedOf(o.Type()); n != nil && n.Obj().Name() == "Ring" {
+												return o, true
+											}
+										}
+									}
+								}
+							}
 							if sel, ok := unparen(call.Fun).(*ast.SelectorExpr); ok && strings.Contains(sel.Sel.Name, "ByLastModulus") && !strings.Contains(sel.Sel.Name, "Many") {
 								if o := identObj(info, sel.X); o != nil {
 									if _, isVar := o.(*types.Var); isVar {
